@@ -783,6 +783,19 @@ func registerAtomics() {
 		}
 		return e.c.False
 	}
+	// slices.overlaps (used by slices.Insert/Delete/Replace): pointer arithmetic over element
+	// addresses in the original; here: do the two windows share a cell of one backing array
+	intrinsics["slices.overlaps"] = func(e *Exec, _ *frame, _ *ssa.Function, a []Value) Value {
+		x, y := a[0].(Slice), a[1].(Slice)
+		for i := range x.A {
+			for j := range y.A {
+				if &x.A[i] == &y.A[j] {
+					return e.c.True
+				}
+			}
+		}
+		return e.c.False
+	}
 	// atomic.Pointer[T]: generic methods are matched through their origin
 	intrinsics["(*sync/atomic.Pointer[T]).Load"] = func(e *Exec, _ *frame, _ *ssa.Function, a []Value) Value { return *atomicCell(e, a[0]) }
 	intrinsics["(*sync/atomic.Pointer[T]).Store"] = func(e *Exec, _ *frame, _ *ssa.Function, a []Value) Value {
